@@ -21,8 +21,12 @@ linear map where invariant subspaces / polynomials are involved.
 * §4 `expmv_exact_pow`, `expmv_exact_poly`, `expmv_exact` : `p(f) (V y) = V (p(T) y)` for every polynomial `p`,
   and `exp(t f) (V y) = V (exp(t T) y)` over `ℝ`/`ℂ`
 * §5 `expmv_time`, `expmv_t_zero`, `expmv_zero_vector`, `expmv_zero_vector_error` : time bookkeeping of `expmv`
-* §6 `lin_solver_residual`, `lin_solver_sector`
-* §7 `krylov_sector`, `eigs_sector`
+* §6 `lin_solver_residual`
+* §7 `krylov_sector`, `eigs_sector`, `lin_solver_sector`, `expmv_sector`
+
+Not covered here (left to the numerical contracts checked by the harness): rounding; that the first column of
+`expm` of the AUGMENTED `(m+1)×(m+1)` matrix built by `expmvMatrix` restricted to its first `m` rows is
+`exp(c T) e₀` (block-triangular exponential); the quality of `lstsq` / `eig` / `ctrl`.
 -/
 namespace YModel.Krylov
 
@@ -491,6 +495,45 @@ theorem lin_solver_sector (f : Module.End K E) (lstsq : List (List K) → List K
       exact Submodule.smul_mem _ _ (self_mem_krylovSpace f _)) v (List.mem_of_mem_take hv)
 
 end sector
+
+section sector_expmv
+variable {σ : Type} [LinearOrder K] [IsStrictOrderedRing K] (ip : E → E → K) (sq rp : K → K)
+
+/-- the vector returned by `expmv` lies in the Krylov space of the input vector (linear `f`; ANY `expm`, `ctrl`,
+fuel; rejected passes that keep their Krylov basis for the next pass included) -/
+theorem expmv_sector (f : Module.End K E) (expm : List (List K) → List (List K))
+    (ctrl : σ → CtrlIn K → CtrlOut K × σ) (mem0 : σ) (fuel size : Nat) (v : E) (t tol : K) (ncv : Nat)
+    (herm normalize : Bool) (out : ExpmvOut K E)
+    (h : expmv (ordArith ip sq rp) f expm ctrl mem0 fuel size v t tol ncv herm normalize = .ok out) :
+    out.v ∈ krylovSpace f v := by
+  have hS := krylovSpace_invariant f v
+  have hv := self_mem_krylovSpace f v
+  by_cases hz : sq (ip v v) = 0
+  · rw [expmv_eq_of_zero ip sq rp f expm ctrl mem0 fuel size v t tol ncv herm normalize hz] at h
+    split at h
+    · exact absurd h (by simp)
+    · split at h
+      · exact absurd h (by simp)
+      · rename_i st hst
+        simp only [Except.ok.injEq] at h
+        subst h
+        have := expmvLoop_mem ip sq (fun x => |x|) rp (fun a b => decide (a < b)) f expm ctrl tol herm (min 30 size)
+          _ _ (krylovSpace f v) hS fuel _ st ⟨hv, fun ks hks => by simp at hks⟩ hst
+        exact Submodule.smul_mem _ _ this.1
+  · rw [expmv_eq_of_ne ip sq rp f expm ctrl mem0 fuel size v t tol ncv herm normalize hz] at h
+    split at h
+    · exact absurd h (by simp)
+    · rename_i st hst
+      simp only [Except.ok.injEq] at h
+      subst h
+      have := expmvLoop_mem ip sq (fun x => |x|) rp (fun a b => decide (a < b)) f expm ctrl tol herm (min 30 size)
+        _ _ (krylovSpace f v) hS fuel _ st ⟨Submodule.smul_mem _ _ hv, fun ks hks => by simp at hks⟩ hst
+      dsimp only
+      cases normalize
+      · exact Submodule.smul_mem _ _ this.1
+      · exact this.1
+
+end sector_expmv
 
 /-! ## Non-vacuity: concrete instances over `K = ℚ`, `E = ℚ × ℚ` (kernel evaluation of the SAME definitions) -/
 
